@@ -1929,6 +1929,7 @@ func (r *c13Run) sectionEpoch(w *c13World) {
 func TestVerif_C13(t *testing.T) {
 	silenceKlog()
 	R := vkit.New("C13")
+	vkRequestWatchdog = 120 * time.Second // a request that never returns is a finding, not a worker timeout
 	defer R.Finish()
 	base := vkBase("c13")
 	defer os.RemoveAll(base)
